@@ -119,4 +119,10 @@ def lastRetB (h : List (Nat × Ev)) (t : Nat) : Option Bool :=
 def countRun (w : Word) : GState :=
   step mutexProg noPred (step mutexProg noPred (mxInit w) (.inv 0 1 [])) (.tau 0)
 
+/-- HasFlag(f) on a flag word `v` (function 2 of `flagProgH`): invocation, its single atomic load, return -/
+def flagProgH : List Func := [addFlag, removeFlag, Got.Generated.AstLoomAtomics.hasFlag]
+
+def hasFlagRun (v f : W64) : GState :=
+  step flagProgH noPred (step flagProgH noPred (flagInit v) (.inv 0 2 [.i64 f])) (.tau 0)
+
 end Got.Model.AtomicsGen
